@@ -30,6 +30,26 @@ CLAIMED = {
             'TLA+ models PtyRead/FdRead/SockRead of read_nonblocking (one action per system call) x peer x process table checked by TLC in every interleaving; every single-call path of the TLC state graph replayed on the real transport by system-call interposition; recorded traces matched against the TLC state graph',
             'TLC proves prefix-in-order / EOF-only-when-drained / at-most-size / socket-timeout-restored for all interleavings in the bound; the same interleavings are forced on real pty children, pipes, pty and socket descriptors and socketpairs between the real system calls of the real code and the bytes compared',
             'real Linux kernel semantics observed, not modelled beyond readiness/short reads; units are single bytes; PopenSpawn see notes', '5 C06', 'transport'),
+    'C07': ('model_checking',
+            'TLA+ model Codec (incremental decoder carry-over under arbitrary cuts, BOMs, invalid units, error policies) checked by TLC; every path of the dumped state graph instantiated in 9 encodings x 3 policies and replayed on pty / fd / popen / socket (read, expect and awaited variants), state after every read compared with TLC\'s',
+            'TLC proves WholeStream / CarryEmptyAtBoundary / NothingDropped ... for every cut set of streams of <= 3-4 characters of width 1-4; ~49k (quick) replays on the real transports with the cuts exactly where the model put them; text, types and logfile_read compared with the model state and with one-shot decoding',
+            'codec correctness is Python\'s; gb18030 streams where the codec disagrees with itself are dropped', '5 C07', 'codec'),
+    'C08': ('model_checking',
+            'TLA+ model SendLog (send family, control bytes, encoder state, three logs) checked by TLC; every transition of the dumped graphs (4 transports) taken on fresh real objects with a raw-mode reporting peer; peer bytes, return values, logs compared with the TLC successor state',
+            'TLC proves PeerGotExactly / ReturnValue for all operation sequences in the bound; 87k steps on real pty / fd / popen / socket objects, all 38 control names, payload classes incl. all byte values and 300 kB',
+            'barrier markers written below pexpect delimit what the peer got', '5 C08', 'sendlog'),
+    'C09': ('model_checking',
+            'TLA+ model Lifecycle (child process table x descriptor x object flags x every lifecycle operation as the code performs it) checked by TLC; operation sequences executed on steered real children (pty, Popen), every trace validated by TLC (LifecycleTrace); sweep over 256 exit codes and all terminating signals x observation paths',
+            'TLC proves ObservedStatusTrue / StatusStable / WaitReturnsCode; ~19k distinct real traces per quick run judged by TLC',
+            'signal effects awaited with waitid(WNOWAIT); races inside one delayafter* pause are outside the model', '5 C09', 'lifecycle'),
+    'C10': ('model_checking',
+            'same model: NeverAliveAfterReaped, NeverTerminatedWhileRunning, ForceLeavesDead, CloseIdempotent, NoLeak, AfterCloseIoFails; every operation sequence <= 3 (thorough 4) x dispositions x transports on real children / descriptors / sockets, /proc observations, an intruder dup2\'ed onto a freed descriptor number; traces validated by TLC',
+            'TLC proves the six invariants over all sequences in the bound; ~22k distinct real traces per quick run judged by TLC',
+            'as C09', '5 C10', 'lifecycle'),
+    'C11': ('model_checking',
+            'same SendLog model: LogReadExact, LogSendExact, LogAllInterleaved, EveryWriteFlushed, LogTypeIsApiType; same walks with recording log objects (value, type, flush count), plus in-process interact() on an outer pty',
+            'TLC proves the log invariants; every transition taken on real objects incl. interact() copy steps',
+            'as C08', '5 C11', 'sendlog'),
     'C12': ('model_checking',
             'TLA+ model Run (the run() loop over the contract ExpectAbs against scripted child programs) checked by TLC; the real run() executed with run.spawn rebound to a scripted dialogue child, traces validated by TLC against ExpectTrace (contract + run() clauses: output exactly once, one answer per occurrence, callbacks with the state dictionary)',
             'TLC proves CollectedOnce / ReturnsWholeOutput / AnsweredOnce for every program, chunking and event table in the bound; about a thousand real run() executions (dict/list tables, string/function/method responses, EOF/TIMEOUT events, bytes/unicode) are judged event by event by TLC; real children for the exit status',
@@ -54,6 +74,14 @@ CLAIMED = {
             'TLA+ model Pxssh (login() as written - two-phase decision procedure, prompt synchronisation, set_unique_prompt - against a reactive ssh server at dialogue-token level) checked by TLC over every server configuration x options; the real login() run against a scripted server for every configuration, transcripts validated by TLC (PxsshTrace clauses) and compared with the model\'s prediction',
             'TLC proves the five invariants with the named deviations off and exhibits the witnesses of the two recorded findings with the code as it is; 2,800 (quick) / ~26,000 (thorough) real login() dialogues are judged by TLC clause by clause; the as-is model predicts result and client transcript of each',
             'scripted ssh (no network); token-level model; virtual timeouts', '5 C17', 'pxssh'),
+    'C18': ('model_checking',
+            'TLA+ model AnsiFsm (the ANSI parser table with parameter stack over 40 input classes) on top of Screen, checked by TLC exhaustively on tiny screens; one implementation test per transition of the dumped graph; chunk independence over TLC-simulated inputs in every split; random sequences on larger screens validated by TLC (ScreenAnsiTrace)',
+            'TLC proves Shape / CursorOnScreen / NoResidue / Total on 2x2..3x4; 411k (quick) transitions replayed on the real ANSI object; 69k splits incl. cuts inside escape sequences and multi-byte characters',
+            'cell alphabet abstracted; numeric parameters saturate', '5 C18', 'screen'),
+    'C19': ('model_checking',
+            'TLA+ reference grid Screen (31 documented methods with explicit frame conditions, accessors as functions of the grid) checked by TLC; one implementation test per transition (1.2M quick) + every accessor in every graph state; random operation sequences on 24x80 etc. validated by TLC',
+            'every operation x argument class x state of tiny screens compared with the reference grid; accessors compared with the TLC table',
+            'where the documentation is silent the reference follows the code or is nondeterministic', '5 C19', 'screen'),
     'C20': ('model_checking',
             'TLA+ decision table PatternForms enumerated and checked for consistency by TLC; one implementation test per table row (MongoDB-style): same scripted stream under the form and under the reference pattern',
             'every row of the table (mode x ignorecase x form x flag set x entry point) is executed on the real code over discriminating streams; rejected rows must raise TypeError with nothing read and pending text intact',
@@ -114,6 +142,14 @@ def main():
              'kind_free_text': 'TLC model of login() vs reactive server + TLC validation of real login() transcripts + model prediction per dialogue'},
             {'name': 'interact', 'path': 'spec/Interact.tla harness/checks/interact.py harness/world.py', 'serves_properties': ['C15'],
              'kind_free_text': 'TLC model of interact() + replay of every state-graph path on the real interact() between two ptys'},
+            {'name': 'codec', 'path': 'spec/Codec.tla harness/checks/codec.py harness/sendlog_world.py', 'serves_properties': ['C07'],
+             'kind_free_text': 'TLC decoder model, every graph path replayed on four transports + asyncio'},
+            {'name': 'sendlog', 'path': 'spec/SendLog.tla harness/checks/sendlog.py harness/sendlog_world.py harness/reclog.py harness/peers/rawpeer.py', 'serves_properties': ['C08', 'C11'],
+             'kind_free_text': 'TLC send/log model, one implementation test per transition on real objects with a reporting peer'},
+            {'name': 'lifecycle', 'path': 'spec/Lifecycle.tla spec/LifecycleTrace.tla harness/lifeworld.py harness/lifecases.py harness/checks/lifecycle.py', 'serves_properties': ['C09', 'C10'],
+             'kind_free_text': 'TLC lifecycle model + TLC trace validation of operation sequences on real children'},
+            {'name': 'screen', 'path': 'spec/Screen.tla spec/AnsiFsm.tla spec/ScreenAnsiTrace.tla harness/checks/screen_ansi.py', 'serves_properties': ['C18', 'C19'],
+             'kind_free_text': 'TLC reference grid / parser FSM, one implementation test per transition, TLC trace validation of random sequences'},
             {'name': 'patternforms', 'path': 'spec/PatternForms.tla harness/checks/c20.py', 'serves_properties': ['C20'],
              'kind_free_text': 'TLC-enumerated decision table, one implementation test per row'},
         ],
